@@ -70,6 +70,10 @@ fn main() {
                 }
                 i += 1;
             }
+            if tier == Tier::Thorough {
+                // larger systems and deeper PDR runs
+                transport::EVENT_BUDGET.store(6_000_000, std::sync::atomic::Ordering::Relaxed);
+            }
             let code = match replay {
                 Some(path) => runner::replay_file(prop.as_ref(), &path, &out),
                 None => runner::check(prop.as_ref(), tier, &out),
